@@ -454,6 +454,9 @@ pub struct TestSource {
     pub report: Option<(usize, usize, usize)>,
     /// bytes per sample handed to fill_le_bytes (None = ceil(bps/8))
     pub bytes_per_sample: Option<usize>,
+    /// k > 0: every k-th read (1-based) delivers only half of the requested block although
+    /// more input is available (a pipe / socket style source)
+    pub short_reads: usize,
 }
 
 impl TestSource {
@@ -469,6 +472,7 @@ impl TestSource {
             log: vec![],
             report: None,
             bytes_per_sample: None,
+            short_reads: 0,
         }
     }
     pub fn with_faults(mut self, f: Vec<Fault>) -> Self {
@@ -511,7 +515,10 @@ impl Source for TestSource {
         }
         let ch = self.audio.channels;
         let total = self.audio.frames();
-        let n = block_size.min(total - self.pos);
+        let mut n = block_size.min(total - self.pos);
+        if self.short_reads > 0 && (k + 1) % self.short_reads == 0 && n > 1 {
+            n = (n / 2).max(1);
+        }
         let slice = &self.audio.samples[self.pos * ch..(self.pos + n) * ch];
         let mut owned: Option<Vec<i32>> = None;
         for f in &self.faults {
